@@ -35,7 +35,7 @@ if not flt:
     with open('/verif/mutants/RESULTS.md','w') as f:
         f.write("# Hand-written sensitivity mutants vs. the quick tier of the property's own check\n\n| mutant | property | result | cases until detection | first violation |\n|---|---|---|---|---|\n")
         for r in res: f.write("| %s | %s | %s | %s | %s |\n"%r)
-        f.write("\n%d of %d caught by the quick tier. c04_claim_never_poll (revert of fix fedbe7a) is found by the sched_fuzz stage of `./check C04 thorough` (about 2 minutes).\n"%(sum(1 for r in res if r[2]=='caught'),len(res)))
+        f.write("\n%d of %d caught by the quick tier (generated search only: the replay corpus is not used in these runs). The reverts of the repairs are c09_revert_d1, c03_busy_try_lock (D2), c04_no_notify / c04_sticky_flag_off (D3), c04_claim_never_poll (D8), c16_revert_d5, c15_no_active_guard_steal (D7), c15_no_pending_kick (D9), c15_revert_d9b, c15_revert_d9c, c05_revert_d10.\n"%(sum(1 for r in res if r[2]=='caught'),len(res)))
 PY
 git -C /repo checkout -- .
 cargo build --release --offline -p dv 2>&1 | grep -E "^error" | head -3
